@@ -46,9 +46,17 @@ pub fn swarm(ctx: &mut Ctx, o: SwarmOpts) -> NetProfile {
     // one run in four holds one task back (ids 1..12 cover accept loops, handshakes, readers and
     // the first scripted peers); it is released with probability 0.5 % or 5 % per step
     let starve = if ctx.plan(4) == 1 { Some((1 + ctx.plan(12) as usize, ctx.plan_pick(&[5u16, 50]))) } else { None };
+    // one run in three gives the transport a cooperative budget (tokio's is 128 operations per
+    // task poll; smaller ones reach the same state sooner), half of them with the immediate wake
+    // that a block_on-driven future sees
+    let coop = match ctx.plan(6) {
+        1 => Some((ctx.plan_pick(&[128u32, 16, 2]), false)),
+        2 => Some((ctx.plan_pick(&[128u32, 16, 2]), true)),
+        _ => None,
+    };
     let p = NetProfile { cap, read_chunk, write_chunk, yield_pm, latency, deliver_chunk };
     ctx.sim.rt.net.borrow_mut().profile = p;
-    ctx.sim.rt.policy.set(rt::Policy { head_pct, preempt_pm, spurious, starve });
+    ctx.sim.rt.policy.set(rt::Policy { head_pct, preempt_pm, spurious, starve, coop });
     p
 }
 
